@@ -182,6 +182,21 @@ theorem c18_cached_answers (P : Params) (hnc : P.inner.NoCached) (h2 : RootHyp2 
   have := c10_root_history_full P.id P.inner h2 hT hL _ σ h0 hc (c, x) (by rw [hlin]; exact hin)
   exact this
 
+/-- **all concurrent `map()` calls with one column setting get the same map**: whichever threads call `map(columns)` on the shared
+CachedSource or its clones, whenever, under every interleaving (also racing with `stream_chunks`, which may be the one to fill the
+entry), any two of the answers are equal — the value side of "the cached value is never replaced" and of "repeating a call never
+changes its answer" (C10) -/
+theorem c18_map_answers_agree (P : Params) (hnc : P.inner.NoCached) (r : RState) (hr : r.Inv) (σ : Store) (progs : List (List Op))
+    (sched : List Nat) (col : Bool) :
+    ∀ t₁ ∈ (run P (initSys r σ progs) sched).ths, ∀ t₂ ∈ (run P (initSys r σ progs) sched).ths, ∀ x₁ x₂,
+      Ans.call (.io (col, .map)) x₁ ∈ t₁.outs → Ans.call (.io (col, .map)) x₂ ∈ t₂.outs → x₁ = x₂ := by
+  intro t₁ h₁ t₂ h₂ x₁ x₂ m₁ m₂
+  obtain ⟨hlin, hmem⟩ := c18_linearizable P hnc r hr σ progs sched
+  have a := hmem t₁ h₁ _ _ m₁
+  have b := hmem t₂ h₂ _ _ m₂
+  have := map_answers_agree P.id P.inner hnc col _ σ (_, x₁) (by rw [hlin]; exact a) (_, x₂) (by rw [hlin]; exact b) rfl rfl
+  exact this
+
 /-- **once a map has been cached it is never removed or replaced**, with its value: any step of any thread from any reachable
 state keeps every stored entry -/
 theorem c18_entry_never_replaced (P : Params) (hnc : P.inner.NoCached) (r : RState) (hr : r.Inv) (σ : Store) (progs : List (List Op))
